@@ -26,7 +26,10 @@ EXPLANATION = (
     "is built by default) restricted to the numeric types is exactly PEP 484's "
     "tower int->float->complex (transitively closed, antisymmetric), the rest "
     "is within {bytearray,memoryview}->bytes, and _match_base_class_flat "
-    "consults it only under allow_compat_builtins; R2.2 for every pair of "
+    "consults it only under allow_compat_builtins (the method is the first "
+    "definition along AbstractMatcher's module-local MRO, so it may sit in a "
+    "module-local mixin/base; an own override shadows the mixin's; a "
+    "non-local base earlier in the MRO is an analysis error); R2.2 for every pair of "
     "classes of builtins.pytd that are CPython builtin types, stub "
     "reachability through bases equals issubclass in CPython 3.12; R2.3 "
     "return, annotated-store and argument sites reach the matcher and log the "
@@ -179,7 +182,10 @@ def r2_1(ctx):
             {"flag_expr": src(kw) if kw is not None else None,
              "none_is_not_bool_default": default_off})
   # consulted only under allow_compat_builtins
-  fn = mm.func("AbstractMatcher._match_base_class_flat")
+  # resolved through the module-local MRO: the method may live in a module-local
+  # mixin/base of AbstractMatcher (the first definition along the MRO is the one
+  # AbstractMatcher instances run; a non-local base before it is a refusal)
+  _owner, fn = U.resolve_method(mm, "AbstractMatcher", "_match_base_class_flat")
   uses = [n for n in ast.walk(fn) if isinstance(n, ast.Compare)
           and any("_compatible_builtins" in src(c) for c in n.comparators)]
   ok = len(uses) == 1
@@ -1082,6 +1088,23 @@ def r2_7(ctx):
             "f(1, x='a') is valid and binds kw['x'])", facts)
 
 
+# text of AbstractMatcher._match_base_class_flat, for the variants that move it into a
+# module-local mixin (with and without the defect)
+_MBCF_DEF = (
+    "  def _match_base_class_flat(self, base_cls, other_type, allow_compat_builtins):\n"
+    "    if isinstance(other_type, abstract.ParameterizedClass):\n"
+    "      other_type = other_type.base_cls\n"
+    "    if base_cls is other_type:\n"
+    "      return True\n"
+    "    name1 = self._get_full_name(base_cls)\n"
+    "    name2 = self._get_full_name(other_type)\n"
+    "    return (\n"
+    "        name1 == name2\n")
+_MBCF_TAIL = (
+    "        or allow_compat_builtins\n"
+    "        and (name1, name2) in self._compatible_builtins\n"
+    "    )\n")
+
 VARIANTS = [
     {"name": "tower-reversed-pair", "rule": "R2.1", "file": "pytype/pytd/pep484.py", "expect": "fire",
      "old": '    ("int", "float"),\n', "new": '    ("int", "float"),\n    ("float", "int"),\n'},
@@ -1095,6 +1118,32 @@ VARIANTS = [
     {"name": "compat-pair-swapped", "rule": "R2.1", "file": "pytype/matcher.py", "expect": "fire",
      "old": "        and (name1, name2) in self._compatible_builtins",
      "new": "        and (name2, name1) in self._compatible_builtins"},
+    {"name": "twin-benign-C02-b3r1-nominal-mixin", "rule": "R2.1",
+     "patch": "benign/C02-b3r1/patch.diff", "expect": "silent"},
+    {"name": "mixin-compat-always-consulted", "rule": "R2.1", "expect": "fire", "edits": [
+        ("pytype/matcher.py", "class AbstractMatcher(utils.ContextWeakrefMixin):\n",
+         "class _NominalMatchMixin(utils.ContextWeakrefMixin):\n\n" + _MBCF_DEF +
+         "        or (name1, name2) in self._compatible_builtins\n    )\n\n\n"
+         "class AbstractMatcher(_NominalMatchMixin):\n"),
+        ("pytype/matcher.py", _MBCF_DEF + _MBCF_TAIL, "")]},
+    {"name": "mixin-compat-pair-swapped", "rule": "R2.1", "expect": "fire", "edits": [
+        ("pytype/matcher.py", "class AbstractMatcher(utils.ContextWeakrefMixin):\n",
+         "class _NominalMatchMixin(utils.ContextWeakrefMixin):\n\n" + _MBCF_DEF +
+         _MBCF_TAIL.replace("(name1, name2)", "(name2, name1)") + "\n\n"
+         "class AbstractMatcher(_NominalMatchMixin):\n"),
+        ("pytype/matcher.py", _MBCF_DEF + _MBCF_TAIL, "")]},
+    {"name": "twin-mixin-compat-guard", "rule": "R2.1", "expect": "silent", "edits": [
+        ("pytype/matcher.py", _MBCF_DEF + _MBCF_TAIL, ""),
+        ("pytype/matcher.py", "class AbstractMatcher(utils.ContextWeakrefMixin):\n",
+         "class _NominalMatchMixin(utils.ContextWeakrefMixin):\n\n" + _MBCF_DEF +
+         _MBCF_TAIL + "\n\nclass AbstractMatcher(_NominalMatchMixin):\n")]},
+    {"name": "mixin-shadowed-by-own-override", "rule": "R2.1", "expect": "fire", "edits": [
+        ("pytype/matcher.py",
+         "        or allow_compat_builtins\n        and (name1, name2) in self._compatible_builtins",
+         "        or (name1, name2) in self._compatible_builtins"),
+        ("pytype/matcher.py", "class AbstractMatcher(utils.ContextWeakrefMixin):\n",
+         "class _NominalMatchMixin(utils.ContextWeakrefMixin):\n\n" + _MBCF_DEF +
+         _MBCF_TAIL + "\n\nclass AbstractMatcher(_NominalMatchMixin):\n")]},
     {"name": "bool-not-int", "rule": "R2.2", "file": stubs.BUILTINS, "expect": "fire",
      "old": "class bool(int, SupportsInt, SupportsFloat):",
      "new": "class bool(SupportsInt, SupportsFloat):"},
